@@ -69,18 +69,8 @@ def big_greedy_case(rng, n, ws):
 
 
 def close_after_half_flush_case(rng):
-    """the request's own reply flushing meets close(): a management reply is only PARTLY accepted by the transport (k of its bytes,
-    then Pending), the handler abandons that read and returns; Request::close must complete the half-sent record before it writes
-    anything else - at every cut position k"""
-    from conngen import conn_case
-    rid = rng.choice([1, 300])
-    q = record(GETVALUES, 0, nv_all([(b"FCGI_MPXS_CONNS", b""), (b"FCGI_MAX_REQS", b"")][:rng.choice([1, 2])]), rng.choice([0, 3]))
-    unk = record(rng.choice([12, 99]), 0, [1, 2, 3], 0)
-    w = flat(minimal_preamble(rid, 1, flags=rng.choice([0, 1]))) + rng.choice([q, unk, q + unk]) + record(STDIN, rid, [5, 6, 7], 0) + record(STDIN, rid, [], 0)
-    k = rng.randrange(1, 16)
-    ws = [k, 0] + rng.choice([[10 ** 6] * 20, [1, 0, 3, 10 ** 6, 10 ** 6, 10 ** 6, 10 ** 6, 10 ** 6], [0, 0, 10 ** 6] * 6])
-    h = [("poll1", rng.choice([1, 8, 64]))] + rng.choice([[], [("poll1", 8)]]) + [("ret", 0, rng.choice([0, 3]))]
-    return conn_case(rng.choice([64, 256, 8192]), 1, [(0, 0, w)], [h], [10 ** 6] * 5, ws, rng.choice([0, 1])), ["conn", "close-after-half-flush"]
+    c, t = C07.close_after_half_flush_case(rng)
+    return c, ["conn", "close-after-half-flush"]
 
 
 def gen_cases(rng, tier):
